@@ -19,10 +19,10 @@ def R(len=0, id='v', set=(), reset=(), err=False, lang='', content=''):
     return dict(len=len, id=id if len else '', set=list(set), reset=list(reset), err=err, lang=lang, content=content)
 
 
-def prog(name, nodes, syms, inputs, flagcount=2, templates=None, outputsize=0, cachesize=0, language='', langsens=False):
+def prog(name, nodes, syms, inputs, flagcount=2, templates=None, outputsize=0, cachesize=0, language='', langsens=False, first=False, rempty=False):
     t = templates or {}
     p = dict(name=name, root='root', flagcount=flagcount, outputsize=outputsize, cachesize=cachesize, language=language, langsens=langsens,
-             nodes=nodes, templates=t, syms=syms, inputs=inputs)
+             nodes=nodes, templates=t, syms=syms, inputs=inputs, engine=dict(first=first, rempty=rempty))
     json.dump(p, open(os.path.join(OUT, name + '.json'), 'w'), indent=1, sort_keys=True)
 
 
@@ -89,6 +89,20 @@ prog('scope', {
 }, ['', '0', '1', '2', '3'],
     templates={'root': 'root {{.aa}}', 'l1': 'l1 {{.bb}}', 'l1b': 'l1b {{.aa}}', 'l2': 'l2 {{.bb}} {{.cc}} {{.aa}}'})
 
+# wideflags: 300 client flags - indices beyond 255 (several flag bytes) next to the low ones, in FlagSet/FlagReset and in CATCH/CROAK
+prog('wideflags', {
+    'root': [I('LOAD', 'wa', n=0), I('CATCH', 'hi', n=264, m=1), I('CATCH', 'lo', n=8, m=1), I('HALT'),
+             I('INCMP', 'again', '1'), I('INCMP', '.', '2')],
+    'hi': [I('LOAD', 'clr', n=0), I('HALT'), I('INCMP', '_', '*')],
+    'lo': [I('LOAD', 'clr', n=0), I('HALT'), I('INCMP', '_', '*')],
+    'again': [I('LOAD', 'wb', n=0), I('CROAK', n=300, m=1), I('HALT'), I('INCMP', '_', '*')],
+    '_catch': CATCH,
+}, {
+    'wa': [R(1, 'a', set=[257]), R(1, 'a', set=[262]), R(1, 'a', set=[264]), R(1, 'a', set=[8]), R(1, 'a', set=[263, 256, 258, 259, 260, 261]), R(1, 'a')],
+    'clr': [R(1, 'c', reset=[8, 264])],
+    'wb': [R(1, 'b', set=[300]), R(1, 'b', reset=[44])],
+}, ['', '1', '2', '0'], flagcount=300)
+
 # ends: graceful end and termination at depth 1..3, restart afterwards, client flags kept
 prog('ends', {
     'root': [I('LOAD', 'fa', n=0), I('HALT'), I('INCMP', 'mid', '1'), I('INCMP', 'bye', '2'), I('INCMP', 'die', '3')],
@@ -142,7 +156,7 @@ prog('capacity', {
 prog('pages', {
     'root': [I('LOAD', 'txt', n=0), I('MAP', 'txt'), I('MNEXT', 'next', '11'), I('MPREV', 'prev', '22'), I('MOUT', 'quit', '9'), I('HALT'),
              I('INCMP', '>', '11'), I('INCMP', '<', '22'), I('INCMP', 'bye', '9'), I('INCMP', 'sub', '1'), I('INCMP', '.', '*')],
-    'sub': [I('LOAD', 'two', n=0), I('MAP', 'two'), I('MNEXT', 'fwd', '11'), I('MPREV', 'back', '22'), I('HALT'),
+    'sub': [I('LOAD', 'two', n=0), I('RELOAD', 'two'), I('MAP', 'two'), I('MNEXT', 'fwd', '11'), I('MPREV', 'back', '22'), I('HALT'),
             I('INCMP', '>', '11'), I('INCMP', '<', '22'), I('INCMP', '_', '0')],
     'bye': [I('LOAD', 'big', n=0), I('HALT')],
     '_catch': CATCH,
@@ -151,4 +165,41 @@ prog('pages', {
     'two': [R(content='xx\nyyyyyyyyyyyy\nzz\n\n', len=20, id='#')],
     'big': [R(14, 'g'), R(2, 'g')],
 }, ['', '0', '1', '11', '22', '9', '5'], templates={'root': 'R\n{{.txt}}', 'sub': 'S\n{{.two}}'}, outputsize=36)
+# inline: second screens of a node reached WITHOUT a move (HALT / RELOAD / MAP / HALT), under an output size, with a sink and a sized value
+prog('inline', {
+    'root': [I('LOAD', 'txt', n=0), I('MAP', 'txt'), I('MOUT', 'ok', '1'), I('HALT'),
+             I('RELOAD', 'txt'), I('MAP', 'txt'), I('MOUT', 'ok', '1'), I('HALT'), I('INCMP', 'sub', '1'), I('INCMP', '.', '*')],
+    'sub': [I('LOAD', 'small', n=12), I('MAP', 'small'), I('HALT'), I('RELOAD', 'small'), I('MAP', 'small'), I('HALT'), I('INCMP', '_', '0')],
+    '_catch': CATCH,
+}, {
+    'txt': [R(content='aaaa\nbbbbbbbb\ncccc\ndddddd\neeee', len=30, id='#'), R(content='aa\nbb', len=5, id='#')],
+    'small': [R(3, 's'), R(12, 's')],
+}, ['', '1', '0', '5'], templates={'root': 'R\n{{.txt}}', 'sub': 'S {{.small}} and some static text'}, outputsize=30)
+# first: a pre-VM check function (engine.WithFirst) over a paged node and a sub node; the check may do nothing, set a client flag,
+# leave a value, block the session (TERMINATE, with a message), or fail
+prog('first', {
+    'root': [I('LOAD', 'txt', n=0), I('MAP', 'txt'), I('MNEXT', 'next', '11'), I('MPREV', 'prev', '22'), I('HALT'),
+             I('INCMP', '>', '11'), I('INCMP', '<', '22'), I('INCMP', 'sub', '1'), I('INCMP', 'bye', '9'), I('INCMP', '.', '*')],
+    'sub': [I('LOAD', 'aa', n=4), I('MAP', 'aa'), I('CATCH', 'flagged', n=8, m=1), I('HALT'), I('INCMP', '_', '0'), I('INCMP', '.', '*')],
+    'flagged': [I('HALT'), I('INCMP', '^', '*')],
+    'bye': [I('HALT')],
+    '_catch': CATCH,
+}, {
+    '_first': [R(0), R(2, 'f', set=[8]), R(3, 'f', set=[6]), R(0, err=True), R(1, 'f', reset=[8])],
+    'txt': [R(content='aaaaaaaa\nbbbbbbbb\ncccccccc\ndddddddd\neeeeeeee\nffffffff', len=53, id='#')],
+    'aa': [R(3, 'a')],
+}, ['', '11', '22', '1', '0', '9'], templates={'root': 'R\n{{.txt}}', 'sub': 'sub {{.aa}}'}, outputsize=36, first=True)
+
+# rempty: engine.Config.ResetOnEmptyInput - the empty input restarts the session wherever it is (also when it is blocked)
+prog('rempty', {
+    'root': [I('LOAD', 'aa', n=5), I('MAP', 'aa'), I('HALT'), I('INCMP', 'sub', '1'), I('INCMP', 'dead', '2'), I('INCMP', '.', '*')],
+    'sub': [I('LOAD', 'bb', n=0), I('HALT'), I('INCMP', 'deep', '1'), I('INCMP', '_', '0')],
+    'deep': [I('LOAD', 'cc', n=3), I('HALT'), I('INCMP', '^', '1'), I('INCMP', '_', '0')],
+    'dead': [I('LOAD', 'cc', n=3)],
+    '_catch': CATCH,
+}, {
+    'aa': [R(3, 'a'), R(0)],
+    'bb': [R(4, 'b', set=[8]), R(4, 'b')],
+    'cc': [R(2, 'c', set=[9], reset=[8])],
+}, ['', '0', '1', '2', '7'], templates={'root': 'root {{.aa}}'}, rempty=True)
 print('programs written to', OUT)
